@@ -78,6 +78,8 @@ def PitfallFormula(v, d, ny, nz, k, formula_class=CNF):
     positive_int(k, 'k')
     if k % 2 != 0:
         raise ValueError("argument 'k' must be even.")
+    if nz < 2:
+        raise ValueError("argument 'nz' must be at least 2.")
 
     if (d > v) or (v * d % 2 == 1):
         raise ValueError(
